@@ -5,3 +5,4 @@ import Rp2.Props.C18
 #print axioms Rp2.C18.own_opens_are_read_only
 #print axioms Rp2.C18.written_files_are_reports
 #print axioms Rp2.C18.file_mutating_calls_are_log_output_and_reports
+#print axioms Rp2.C18.written_files_are_reports_from_inputs
